@@ -50,6 +50,13 @@ def scaled : String → String → List Float → Option Float
   | "kirkland", "B", [b] => some (ParamKirklandF.scaledB b)
   | "kirkland", "C", [c, d, k] => some (ParamKirklandF.scaledC c d k)
   | "kirkland", "D", [d] => some (ParamKirklandF.scaledD d)
+  | "peng", "div", [] => some ParamPengF.widthDivisor
+  | "peng", "potA", [a, b, k] => some (ParamPengF.potA a b k)
+  | "peng", "potB", [b] => some (ParamPengF.potB b)
+  | "peng", "projA", [a, b, k] => some (ParamPengF.projA a b k)
+  | "peng", "projB", [b] => some (ParamPengF.projB b)
+  | "peng", "psfA", [a, k] => some (ParamPengF.psfA a k)
+  | "peng", "psfB", [b] => some (ParamPengF.psfB b)
   | _, _, _ => none
 
 def handle : List String → String
